@@ -270,8 +270,8 @@ def run_cmp(component, trace, timeout=1800, shards=16):
         e = dict(os.environ, VERIF_SHARD="%d/%d" % (k, shards))
         procs.append(subprocess.Popen(["bash", "-c", "ulimit -s unlimited; exec %s %s %s" % (os.path.join(BUILD, "cmp"), component, trace)],
                                       env=e, stdout=subprocess.PIPE, stderr=subprocess.STDOUT, text=True, errors="replace"))
-    mism, info, raw, rc = [], {}, "", 0
-    for p in procs:
+    mism, info, raw, rc, notes = [], {}, "", 0, []
+    for k, p in enumerate(procs):
         try:
             out, _ = p.communicate(timeout=max(1, timeout - (time.time() - t0)))
         except subprocess.TimeoutExpired:
@@ -279,9 +279,11 @@ def run_cmp(component, trace, timeout=1800, shards=16):
             out, _ = p.communicate()
             out += "\n[timeout]"
             rc = 124
+            notes.append("shard %d/%d: no result within %ds (comparator timeout, not a mismatch)" % (k, shards, timeout))
         raw += out
         if p.returncode not in (0, 1):
             rc = rc or p.returncode or 3
+            notes.append("shard %d/%d: comparator exited with %s: %s" % (k, shards, p.returncode, out[-300:].replace("\n", " | ")))
         mism += [l for l in out.splitlines() if l.startswith("MISMATCH")]
         summ = [l for l in out.splitlines() if l.startswith("SUMMARY")]
         if summ:
@@ -295,7 +297,7 @@ def run_cmp(component, trace, timeout=1800, shards=16):
             rc = rc or 3
     if mism:
         rc = rc or 1
-    return dict(rc=rc, mismatches=mism, summary=info, raw=raw[-4000:], wall=time.time() - t0)
+    return dict(rc=rc, mismatches=mism, summary=info, raw="\n".join(notes) + "\n" + raw[-4000:], wall=time.time() - t0)
 
 
 # ---------------------------------------------------------------- Go harness
@@ -380,7 +382,7 @@ def differential(ctx, name, test, component, env=None, timeout=1800):
     ctx.corr.append(dict(name=name, ok=ok, records=c["summary"].get("records", 0), cases=c["summary"].get("cases", 0),
                          mismatches=len(c["mismatches"]), wall_s=round(r["wall"] + c["wall"], 2), env=e))
     if not ok:
-        ctx.broken.append(("correspondence", name, "\n".join(c["mismatches"][:5]) or c["raw"][-1500:]))
+        ctx.broken.append(("correspondence", name, "\n".join(c["mismatches"][:5]) or c["raw"][:1500]))
     # keep a few trace lines as samples
     try:
         with open(trace) as f:
